@@ -233,6 +233,30 @@ func (w *World) enabled() []Action {
 				wt = ww
 			}
 			acts = append(acts, Action{ID: "reply|" + q.id, W: wt, Do: func() { w.release(q, normalReply) }})
+			if q.pkt.Command == memd.CmdDcpStreamReq && cfg.W.ReplyBurst > 0 && wt > 0 && !w.quiet {
+				// what a real producer does: the success reply and the first messages of the stream leave in one
+				// burst, so the client's connection reader sees them back to back, before the goroutine that
+				// requested the stream has run again
+				acts = append(acts, Action{ID: "replyburst|" + q.id, W: cfg.W.ReplyBurst, Do: func() {
+					vb := int(q.pkt.Vbucket)
+					cn := q.conn
+					w.release(q, normalReply)
+					n := 1 + w.tape.Draw(4, nil)
+					w.mu.Lock()
+					if st := cn.streams[vb]; st != nil {
+						w.probe("stream-opened-with-burst")
+						for i := 0; i < n && w.cl.canEmit(st); i++ {
+							w.cl.emitNext(st, func(k int) int {
+								if k <= 1 {
+									return 0
+								}
+								return w.tape.Draw(k, nil)
+							})
+						}
+					}
+					w.mu.Unlock()
+				}})
+			}
 		}
 	}
 	// 2. DCP emissions
